@@ -27,7 +27,9 @@ only honoured when ordering is requested explicitly for C, so that the base's de
 `opts` per field, own or inherited (kw_only, init=False, alias, repr, hash, metadata, converter / validator present,
 default value / factory: none of them is ordering's business -- the order tuple stays in field order with the same
 participants and keys; instances are built through whatever __init__ results, init=False fields set behind it),
-`hashes` per field (what hash() does on each operand's value: unhashable / by identity / a number shared with other
+`meta` in cfg (the metaclass of all classes of the case: `type`, or one whose ==/!= between class objects lies -- any two
+classes "equal" -- or raises; the class test is identity, other-class operands still get NotImplemented and the
+classes are never asked), `hashes` per field (what hash() does on each operand's value: unhashable / by identity / a number shared with other
 values, as 1, True and 1.0 share theirs -- so that nothing can be remembered about a value, or shared between
 values that are equal or hash alike, without showing).  Also observed: the applications of the key functions during
 each direct call (`keys`): every keyed order field's key is applied to self's value, then to other's, on every call.
@@ -64,9 +66,11 @@ RULE = ("cases = class-level (api x cmp x eq x order x auto_detect x own orderin
         "x {true,false,raises}^2 per operand), field options that must not matter (block: kw_only/init/alias/repr/hash/metadata/converter/"
         "validator/default singly and mixed x first/second/inherited/all fields x 3 front-ends, fields disagreeing in direction), "
         "hashable values (block memo: key shapes x earlier life none/rekey/rebind/evolve/copy x hash by identity / shared number / "
-        "unhashable), all four as random decoration of every other block; field names permuted; non-trivial = class built, ordering generated, and "
+        "unhashable), all four as random decoration of every other block; metaclasses whose class ==/!= lies or raises (cfg, 3 of 8 cases; "
+        "40% of the operands block); field names permuted; non-trivial = class built, ordering generated, and "
         "(other-class operand or at least one value comparison performed); distinct = distinct JSON case")
 ASSUMPTIONS = [
+    "instances that lie about `__class__` are not used as other-class operands: the generated methods test `other.__class__`, so such an object is, for attrs, an instance of the class it claims; lying METACLASSES (class ==/!= True/False or raising) are varied",
     "the values' reflected comparisons agree (yv > xv is xv < yv, yv == xv is xv == yv), as Python's data model asks: y-side scripted values answer with the mirror of the script; the trace records which value was compared with == / an ordering operator, not by which side",
     "CPython's tuple rich comparison (first position neither identical nor ==, operator applied there, else lengths) is modelled as a 6-line function and diff-tested here through scripted, tracing value objects",
     "CPython's rich-comparison dispatch for x<y (reflected method of a proper subclass first, left, reflected, TypeError) is modelled and diff-tested here for the operand kinds same/identical/subclass/superclass/foreign",
@@ -376,11 +380,36 @@ def _redefs(case):
     return [f for f in case["fields"] if not f["inBase"] and f.get("redef")]
 
 
+META_LOG: list = []
+
+
+def _metaclass(kind):
+    """the metaclass of every class of the case: plain `type`, or one whose == between class objects LIES (any two
+    classes of the family are "equal", != says False) or raises -- the class test of the ordering methods is about
+    identity, so operands of another class must still get NotImplemented whatever the metaclass answers"""
+    if not kind:
+        return type
+
+    def __eq__(cls, other):
+        META_LOG.append("meta:eq")
+        if kind == "raises":
+            raise RuntimeError("metaclass ==")
+        return True
+
+    def __ne__(cls, other):
+        META_LOG.append("meta:ne")
+        if kind == "raises":
+            raise RuntimeError("metaclass !=")
+        return False
+
+    return type("Meta", (type,), {"__eq__": __eq__, "__ne__": __ne__, "__hash__": type.__hash__})
+
+
 def _nobase(case):
     cfg = case.get("cfg", {})
     return bool(cfg.get("nobase")) and not cfg.get("frozen_base") and not case["baseOrdered"] and \
         case["rhs"] != "super" and not any(f["inBase"] for f in case["fields"]) and not _redefs(case) and \
-        not case.get("pre")
+        not case.get("pre") and not cfg.get("meta")
 
 
 def build(case):
@@ -441,6 +470,7 @@ def _build(case, cfg):
 
     base_fields = [f for f in fields if f["inBase"]]
     own_fields = [f for f in fields if not f["inBase"]]
+    M = _metaclass(cfg.get("meta"))
     try:
         if _nobase(case):
             Base = object
@@ -454,7 +484,7 @@ def _build(case, cfg):
                 # a frozen dict class re-declaring a field that is a slot of its base cannot read it back on the
                 # pinned tree (known finding K3 of C01/C08/C10, not this property's business): keep that base dict-based
                 bkw["slots"] = False
-            Base = bdeco(order=bool(case["baseOrdered"]), **bkw)(type("Base", (object,), base_body))
+            Base = bdeco(order=bool(case["baseOrdered"]), **bkw)(M("Base", (object,), base_body))
         body = {f["name"]: _mk_field(f, cfg) for f in own_fields}
         methods = {DUNDER[op]: _mk_user(op) for op in case["own"]}
         bg = _bg_kwargs(cfg, "slots")
@@ -475,20 +505,20 @@ def _build(case, cfg):
                 other_body = _annotate({"q": attr.ib()}, cfg, force=annot)
                 other_body["__lt__"] = _mk_user("lt")
                 the_deco(type("Other", (object,), other_body))
-            C = the_deco(type("C", (Base,), body))
+            C = the_deco(M("C", (Base,), body))
         if case["subOrdered"]:
-            D = _deco(cfg.get("sub_api", "attr.s"))(order=True, **_bg_kwargs(cfg, "slots"))(type("D", (C,), {}))
+            D = _deco(cfg.get("sub_api", "attr.s"))(order=True, **_bg_kwargs(cfg, "slots"))(M("D", (C,), {}))
         else:
-            D = type("D", (C,), {})
+            D = M("D", (C,), {})
         fk = cfg.get("foreign_kind", "twin")
         F = None
         if fk == "twin":
-            F = attr.s(order=True)(type("C", (object,), {f["name"]: _mk_field(f, cfg) for f in base_fields + own_fields}))
+            F = attr.s(order=True)(M("C", (object,), {f["name"]: _mk_field(f, cfg) for f in base_fields + own_fields}))
     except BaseException as e:  # noqa: BLE001
         k = _kind(e)
         return {"fieldErrs": [], "clsErr": k if k in ("valueError", "typeError") else "typeError", "classes": None}
     # what the classes look like before anything is compared (class-level residue is judged against this)
-    dicts = {K: frozenset(K.__dict__) for K in (Base, C, D) if K is not object}
+    dicts = [(K, frozenset(K.__dict__)) for K in (Base, C, D) if K is not object]
     try:
         _pre_compare(case.get("pre") or (), Base, C, D)
     finally:
@@ -742,6 +772,7 @@ def _observe(case):
     obs = {"clsErr": "ok", "fieldErrs": [], "built": True,
            "status": {op: _status(C, Base, op) for op in OPS},
            "direct": {}, "trace": {}, "ops": {}, "rops": {}, "keys": {}}
+    del META_LOG[:]
     for op in OPS:
         meth = getattr(C, DUNDER[op])
         del LOG[:]
@@ -752,12 +783,13 @@ def _observe(case):
         obs["ops"][op] = call(lambda: PYOP[op](x, y))
         obs["rops"][op] = call(lambda: PYOP[op](y, x))
     # ---- comparing leaves nothing behind on the instances
-    residue = set()
+    residue = set(META_LOG)     # the classes are never asked whether they are "equal"
+    del META_LOG[:]
     for inst in (x, y):
         names = _field_names(inst)
         if names is not None:
             residue.update(k for k in getattr(inst, "__dict__", {}) if k not in names)
-    for K, before in b.get("dicts", {}).items():
+    for K, before in b.get("dicts", []):
         # (`__slotnames__` is copyreg's own cache, written by copy.copy / attr.assoc in the histories)
         residue.update(K.__name__ + "." + k for k in K.__dict__ if k not in before and k != "__slotnames__")
     obs["residue"] = sorted(residue)
@@ -804,6 +836,7 @@ def dist(case, obs):
         "falsy_keys": sum(1 for f in case["fields"] if f.get("truth") and any(
             v != "T" for side in f["truth"].values() for k, v in side.items() if k != "raw")),
         "redef": sum(1 for f in case["fields"] if f.get("redef")),
+        "meta": cfg.get("meta"),
         "hashes": "/".join(sorted({str(v) for f in case["fields"] for v in (f.get("hashes") or {}).values()})) or "-",
         "key_calls_lt": len((o.get("keys") or {}).get("lt", [])),
         "opts": "+".join(sorted({k for f in case["fields"] for k, v in (f.get("opts") or {}).items()})) or "-",
@@ -932,6 +965,7 @@ def _rand_cfg(rng):
         "maker": rng.choice(["attrib", "field"]),
         "foreign_kind": rng.choice(["twin", "twin", "object", "int", "none"]),
         "nobase": rng.random() < 0.4,
+        "meta": rng.choice([None, None, None, None, None, "T", "T", "raises"]),
         "alias": rng.choice([0, 0, 0, 1, 2, 3]),
         "annot": rng.random() < 0.2,
         "reuse": rng.random() < 0.2,
@@ -940,7 +974,7 @@ def _rand_cfg(rng):
 
 
 DEFAULT_CFG = {"slots": None, "base_slots": None, "frozen": False, "base_api": "attr.s", "sub_api": "attr.s",
-               "maker": "attrib", "foreign_kind": "twin", "nobase": False, "alias": 0, "annot": False, "reuse": False,
+               "maker": "attrib", "foreign_kind": "twin", "nobase": False, "alias": 0, "annot": False, "reuse": False, "meta": None,
                "frozen_base": False}
 
 # class-level argument sets under which ordering is generated, per api (used by the value-level blocks)
@@ -1161,8 +1195,13 @@ def _gen_operands(tier, rng):
                             for _ in range(reps):
                                 k = rng.choice([1, 2, 3])
                                 fields = [_rand_field(rng, NAMES[i], eq_bias=0.45) for i in range(k)]
-                                yield _case(rng, fields, rhs=rhs, cls=cls, block="operands", baseOrdered=base_ord,
-                                            subOrdered=sub_ord, own=list(own), autoDetect=ad)
+                                c = _case(rng, fields, rhs=rhs, cls=cls, block="operands", baseOrdered=base_ord,
+                                          subOrdered=sub_ord, own=list(own), autoDetect=ad)
+                                if rng.random() < 0.4:
+                                    c["cfg"]["meta"] = rng.choice(["T", "T", "raises"])
+                                    if rhs == "foreign":
+                                        c["cfg"]["foreign_kind"] = "twin"
+                                yield c
 
 
 def _gen_random(tier, rng):
